@@ -385,6 +385,19 @@ func c12ConcurrentEntry(e *ev, n *types.Named, fn *ssa.Function) bool {
 	if isSingleShot(e.p, n, fn) {
 		return false
 	}
+	// the object reaches fn as a plain argument (fn is not a method of n): it belongs to fn's callers, and the
+	// library calls such helpers from every Connect / accept goroutine with the one options struct the user gave
+	recvIsN := false
+	if rv := fn.Signature.Recv(); rv != nil {
+		t := rv.Type()
+		if pt, ok := t.(*types.Pointer); ok {
+			t = pt.Elem()
+		}
+		recvIsN = types.Identical(t, n)
+	}
+	if !recvIsN {
+		return true
+	}
 	if fn.Object().Exported() {
 		// listener.Sync is documented single-shot ("duplicate call" guard) - still reachable concurrently with Close
 		return true
